@@ -66,6 +66,28 @@ pub struct IoState {
 
 static IO: Mutex<Option<IoState>> = Mutex::new(None);
 
+/// Input bytes handed to the program so far / at the moment the stop event was injected (lock-free:
+/// the scheduler marks the stop while holding its own lock).
+static INPUT_TOTAL: std::sync::atomic::AtomicU64 = std::sync::atomic::AtomicU64::new(0);
+static INPUT_AT_STOP: std::sync::atomic::AtomicU64 = std::sync::atomic::AtomicU64::new(u64::MAX);
+
+/// Called by the scheduler at the step that performs the signal handler's store.
+pub fn mark_stop() {
+    use std::sync::atomic::Ordering::SeqCst;
+    INPUT_AT_STOP.store(INPUT_TOTAL.load(SeqCst), SeqCst);
+}
+
+/// Input bytes read after the stop event (None: no stop event in this run).
+pub fn input_bytes_after_stop() -> Option<u64> {
+    use std::sync::atomic::Ordering::SeqCst;
+    let m = INPUT_AT_STOP.load(SeqCst);
+    if m == u64::MAX {
+        None
+    } else {
+        Some(INPUT_TOTAL.load(SeqCst).saturating_sub(m))
+    }
+}
+
 fn lock_io() -> std::sync::MutexGuard<'static, Option<IoState>> {
     match IO.lock() {
         Ok(g) => g,
@@ -74,6 +96,8 @@ fn lock_io() -> std::sync::MutexGuard<'static, Option<IoState>> {
 }
 
 pub fn begin(plan: IoPlan) {
+    INPUT_TOTAL.store(0, std::sync::atomic::Ordering::SeqCst);
+    INPUT_AT_STOP.store(u64::MAX, std::sync::atomic::Ordering::SeqCst);
     let mut g = lock_io();
     let rd_rng = plan.short_reads.map(|(s, _)| Rng::new(s));
     let wr_rng = plan.stdout_short_writes.map(|(s, _)| Rng::new(s));
@@ -199,6 +223,7 @@ pub fn on_read(fd: i32, buf: &mut [u8], is_input_file: bool, file_pos: Option<u6
         }
         st.stdin_pos += n;
         st.counters.input_bytes += n as u64;
+        INPUT_TOTAL.fetch_add(n as u64, std::sync::atomic::Ordering::SeqCst);
         return ReadAction::Done(n);
     }
     if is_input_file {
@@ -237,6 +262,7 @@ pub fn note_file_read(n: usize) {
     let mut g = lock_io();
     if let Some(st) = g.as_mut() {
         st.counters.input_bytes += n as u64;
+        INPUT_TOTAL.fetch_add(n as u64, std::sync::atomic::Ordering::SeqCst);
     }
 }
 
